@@ -471,6 +471,12 @@ func (rm *ResponseManager) unpauseRequest(requestID graphsync.RequestID, extensi
 		return errors.New("request is not paused")
 	}
 	inProgressResponse.state = graphsync.Queued
+	// a pause signal the executor did not consume before the response paused (the pause was requested
+	// through the API and by a block hook for the same block) belongs to the pause that is lifted now
+	select {
+	case <-inProgressResponse.signals.PauseSignal:
+	default:
+	}
 	if len(extensions) > 0 {
 		_ = inProgressResponse.responseStream.Transaction(func(rb responseassembler.ResponseBuilder) error {
 			for _, extension := range extensions {
